@@ -165,6 +165,7 @@ func cliCases(c *run.Ctx) {
 				}
 				continue
 			}
+			g.redefine, g.redefined = i%4 == 1, nil // every second funcs case: a definition under a built-in's name
 			fs, ok := g.genFuncs()
 			if !ok {
 				continue
@@ -174,6 +175,16 @@ func cliCases(c *run.Ctx) {
 				continue
 			}
 			tree := g.callSite(fs, 2)
+			both := builtinUse(tree, g.redefined)
+			for _, f := range fs {
+				both = both || builtinUse(f.Body, g.redefined)
+			}
+			if both {
+				continue
+			}
+			if len(g.redefined) > 0 {
+				c.Count("cli_cases_redefining_a_builtin", 1)
+			}
 			tpl, ok1 := Print(tree)
 			inl, ok2 := inlineUsers(tree, fs)
 			if !ok1 || !ok2 {
